@@ -173,12 +173,20 @@ func runC19(c *core.Ctx) *core.Outcome {
 			w.Rec.OnEvent = func(_ int, kind string) {
 				yield(kind)
 			}
+			if useFs {
+				// every file-system call of this task is a scheduling point too: the sessions share a
+				// directory, and what one does between two calls of another is part of the schedule
+				simfs.SetOpHook(func(kind string) { yield("fs:" + kind) })
+			}
 			for i := range s.inputs {
 				st := ws.Request(s.inputs[i], s.fresh[i])
 				s.conc = append(s.conc, *st)
 				if st.Panic != "" || (st.ExecErr != "" && !st.Cont) || (!st.Cont && !s.persisted) {
 					break
 				}
+			}
+			if useFs {
+				simfs.ClearOpHook()
 			}
 			w.Rec.OnEvent = nil
 		})
